@@ -23,6 +23,11 @@ tie:   2-5 real callers of functions protected by `thunder_protection` - bare, a
        awaited (background=False) - which outlive their lock key (early_ttl) and the stored value (ttl) while callers
        keep arriving in every window; the body counter per key counts them like any other body.  A tree without the
        per-key `recalculations` table (repair D44) is reported under the signature "D44:early-overlapping-recalculation".
+       SHARING is decided by the rendered cache key and by nothing else: decorator OBJECTS are reused (`cached = cache(...)`
+       applied to other functions before / after the function under test), callers can be tasks SPAWNED BY A BODY (with a
+       copy of its context) that call while a later execution is in flight, keys depend on the template context
+       (`key_context(tenant=...)`, same call arguments) and on the type of equal arguments (1 / 1.0 / True); upper=True
+       variants go through the facade's other code path ("D49:upper-unprotected" without its repair).
        After every scheduler step the observable state (what each caller has received, bodies
        running / started per key, the clock) is compared with
          (a) the Lean model replaying the recorded trace (driver_c07), and
@@ -50,8 +55,9 @@ TRUSTED = [
     "asyncio assumption A3 (a task whose coroutine ends with CancelledError is done like any other: done-callbacks run, every "
     "`await asyncio.shield(task)` raises CancelledError in the waiter): modelled as the third outcome `Outcome.cancelled`, "
     "exercised by the scripted bodies that end cancelled (raise / inner future cancelled / child task cancelled)",
-    "the key of a call is computed by the harness (harness/sfimpl.py key_id: the parameters the template mentions), not by "
-    "cashews' get_cache_key - rendering of keys is C08",
+    "the key of a call is computed by the harness (harness/sfimpl.py key_id: the parameters the template mentions, the tenant "
+    "of the template context for the *_ctx variants, the type of the argument for the *_typed variants), not by cashews' "
+    "get_cache_key - rendering of keys is C08",
     "hand-written model lean/CashewsVerif/Model/SingleFlight.lean of cashews/decorators/locked.py thunder_protection and of "
     "the protected=True glue in cashews/wrapper/decorators.py, tied to the code by this run's schedule correspondence",
     "harness: virtual event loop (harness/vtime.py), gate scheduler (harness/sched.py, harness/sfsched.py), scripted bodies "
@@ -177,7 +183,8 @@ def compare(case, run, answers):
 # property oracle: C07 evaluated on what the real run did
 
 D44 = "D44:early-overlapping-recalculation"
-PRIORITY = [D44, "cancel_spreads", "two_bodies", "wrong_outcome", "stuck", "exec_cancelled", "exec_lost", "exec_not_started"]
+D49 = "D49:upper-unprotected"
+PRIORITY = [D44, D49, "cancel_spreads", "two_bodies", "wrong_outcome", "stuck", "exec_cancelled", "exec_lost", "exec_not_started"]
 
 
 def say(code):
@@ -201,6 +208,7 @@ def oracle(case, run):
     ttl = sfimpl.ttl_ticks(case)
     early = sfimpl.EARLY[case["variant"]]
     foreground = sfimpl.FOREGROUND[case["variant"]]
+    spawned_by = {int(c_): int(p_) for c_, p_ in (case.get("spawned") or {}).items()}
     ettl = sfimpl.early_ticks(case)      # early deadline of a stored value / lifetime of the lock key (early only)
     now = 0             # ticks; moved by the schedule's time steps only
     viol = []
@@ -209,6 +217,8 @@ def oracle(case, run):
     def hit(name):
         stats[name] = stats.get(name, 0) + 1
 
+    if tuple(case.get("reuse", (0, 0))) != (0, 0):
+        hit("decorator_object_shared_with_other_functions")
     inflight = {}       # key -> record of the execution in flight
     recs = {}           # exec id -> record
     cache_val = {}
@@ -222,6 +232,9 @@ def oracle(case, run):
     refreshes = {}      # id of the caller whose execution started it -> recalculation record
     refresh_body = set()    # ids x whose running body belongs to recalculation x (not to execution x)
     recalculated = set()    # keys for which a recalculation was ever started
+
+    upper = case["variant"] in sfimpl.UPPER_VARIANTS
+    D44_ = D49 if upper else D44     # under upper=True the repair of D49 is what keeps recalculations from overlapping
 
     def awaiting_rec(c, k, rf, arg):
         """an execution that runs no body: it awaits recalculation rf and delivers its outcome"""
@@ -262,6 +275,13 @@ def oracle(case, run):
                     hit("stored_value_expired_while_recalculation_runs")
         elif t == "call":
             _, c, k, arg = ev
+            if c in spawned_by:
+                hit("call_by_a_task_spawned_in_a_body")
+                pr = recs.get(spawned_by[c])
+                if pr is not None and pr["ended"] and inflight.get(k) is not None and inflight[k] is not pr \
+                        and not inflight[k]["ended"]:
+                    hit("spawned_task_joins_a_later_execution_of_its_parents_key" if pr["key"] == k else
+                        "spawned_task_joins_an_execution_of_another_key")
             r = inflight.get(k)
             if r is not None:
                 # no ttl carve-out: an execution in flight is joined however old it is
@@ -335,7 +355,7 @@ def oracle(case, run):
                 refresh_body.add(x)
                 running.setdefault(k, []).append(x)
                 if len(running[k]) > 1:
-                    viol.append((D44, f"the wrapped body runs {len(running[k])} times at once for key {k}: the recalculation "
+                    viol.append((D44_, f"the wrapped body runs {len(running[k])} times at once for key {k}: the recalculation "
                                       f"started by caller {x}'s execution overlaps with the bodies of {running[k][:-1]}"))
                 continue
             r = recs.get(x)
@@ -365,12 +385,13 @@ def oracle(case, run):
             running.setdefault(k, []).append(x)
             if len(running[k]) > 1:
                 if early and k in recalculated:
-                    viol.append((D44, f"the wrapped body runs {len(running[k])} times at once for key {k} (scripts of callers "
+                    viol.append((D44_, f"the wrapped body runs {len(running[k])} times at once for key {k} (scripts of callers "
                                       f"{running[k]}) after a recalculation of the key was started"
                                       + (f": recalculation {refresh[k]['id']} is still running" if k in refresh else "")))
                 else:
-                    viol.append(("two_bodies", f"the wrapped body runs {len(running[k])} times at once for key {k} "
-                                               f"(executions started by callers {running[k]})"))
+                    viol.append((D49 if upper else "two_bodies",
+                                 f"the wrapped body runs {len(running[k])} times at once for key {k} "
+                                 f"(executions started by callers {running[k]})"))
             if sum(1 for v in running.values() if v) >= 2:
                 hit("two_keys_in_parallel")
         elif t == "end":
@@ -466,8 +487,8 @@ def oracle(case, run):
                 del inflight[k]
 
     for k, m in run.maxrun.items():
-        if m > 1 and not any(s in ("two_bodies", D44) for s, _ in viol):
-            viol.append((D44 if early and k in recalculated else "two_bodies",
+        if m > 1 and not any(s in ("two_bodies", D44, D49) for s, _ in viol):
+            viol.append((D44_ if early and k in recalculated else D49 if upper else "two_bodies",
                          f"concurrent-execution counter of the wrapped body reached {m} for key {k}"))
     for c, fin in sorted(run.final.items()):
         if c in cancelled:
@@ -523,7 +544,7 @@ def explicit(case, run):
     two = case["variant"] in sfimpl.TWO_PARAM
     ex = {"variant": case["variant"], "callers": [list(c) if two else list(c)[:5] for c in case["callers"]],
           "schedule": [[k, [list(e) for e in a]] if k == "go" else [k, a] for k, a in run.eff]}
-    for f in ("ttl", "early_ttl"):
+    for f in ("ttl", "early_ttl", "reuse", "spawned"):
         if f in case:
             ex[f] = case[f]
     return ex
@@ -728,6 +749,12 @@ def gen_case(rng, variant):
             ncancel += 1
             sched.append(["cancel", rng.randrange(1, m + 1)])
     case = {"variant": variant, "callers": callers, "schedule": sched}
+    if not variant.startswith("bare") and rng.random() < 0.3:
+        case["reuse"] = [rng.randrange(3), rng.randrange(2)]      # the decorator object also decorates other functions
+    if m >= 3 and rng.random() < 0.25:
+        # one or two callers are tasks spawned by the body of an earlier caller's script
+        kids = rng.sample(range(2, m + 1), rng.choice([1, 1, 2]))
+        case["spawned"] = {str(c_): rng.randrange(1, c_) for c_ in kids}
     if timed:
         case["ttl"] = ttl
     if recalc:
@@ -745,15 +772,19 @@ def timed_programs(thorough: bool):
     # at every point of every interleaving: it must be joined every time (the property has no ttl carve-out); every variant
     two = [[1, 0, 1, "r", 7, 0], [2, 0, 1, "e", 3, 1]]
     if thorough:
-        progs.append((two, ALL, {"ttl": 8, "ticks": [8, 1], "tick_budget": 2, "cancel_budget": 0}))
-        progs.append((two, ALL, {"ttl": 8, "ticks": [9], "tick_budget": 1, "cancel_budget": 1}))
+        NG = [v for v in ALL if not sfimpl.GATED[v]]
+        # (the quick tier runs every variant on ages ttl / ttl+1; here two halves of the variants on richer time steps)
+        progs.append((two, NG[0::2] + ["early_gated"], {"ttl": 8, "ticks": [8, 1], "tick_budget": 2, "cancel_budget": 0}))
+        progs.append((two, NG[1::2] + ["cache_gated"], {"ttl": 8, "ticks": [8, 1], "tick_budget": 2, "cancel_budget": 0}))
+        progs.append((two, NG[0::2], {"ttl": 8, "ticks": [9], "tick_budget": 1, "cancel_budget": 1}))
     else:
-        progs.append((two, ALL, {"ttl": 8, "ticks": [8, 9], "tick_budget": 1, "cancel_budget": 0}))
+        progs.append((two, [v for v in ALL if not sfimpl.GATED[v]] + ["early_gated"],
+                      {"ttl": 8, "ticks": [8, 9], "tick_budget": 1, "cancel_budget": 0}))
     # a stored result 1, 2, 7 (last valid tick), 8 (= ttl: gone) ticks old when the next call arrives
     exp = {"ttl": 8, "ticks": [7, 1], "tick_budget": 2, "cancel_budget": 0}
     if thorough:
         progs.append(([[1, 0, 0, "r", 7, 0], [2, 0, 1, "r", 8, 1], [3, 0, 0, "e", 4, 0]],
-                      [v for v in CACHED if not sfimpl.GATED[v]] + ["cache_gated", "bare"], exp))
+                      [v for v in CACHED if not sfimpl.GATED[v]][0::2] + ["cache_gated", "bare"], exp))
     else:
         progs.append(([[1, 0, 0, "r", 7, 0], [2, 0, 1, "r", 8, 1]], ["cache", "early", "soft", "cache_lock"], exp))
     # early with a reachable early_ttl (ttl 24, early_ttl 8 ticks): the first call stores a value; time steps of 9 ticks put
@@ -795,6 +826,39 @@ def exception_programs(thorough: bool):
         vs = [ALL[(rot + j * 5) % len(ALL)] for j in range(nv)]
         rot += 3
         progs.append(([[1, 0, 1, "e", shape, 0], [2, 0, 0, "r", 8, 1], [3, 0, 1, "e", (shape + 1) % sfexc.NSHAPES, 0]], vs))
+    return progs
+
+
+def sharing_programs(thorough: bool):
+    """who shares an execution is decided by the rendered cache key and by nothing else: not by which function of several
+    decorated with one decorator OBJECT is called, not by which task the caller is (a task spawned by an earlier body
+    included), not by call arguments that are equal (same arguments, other template context) or compare equal (1 / True /
+    1.0) when the key they render to differs"""
+    ALL = sfimpl.VARIANTS
+    FACADE = [v for v in ALL if not v.startswith("bare")]
+    KEYED = [v for v in ALL if sfimpl.TWO_PARAM.get(v) in ("ctx", "typed")]
+    PLAIN = [v for v in ALL if not sfimpl.GATED[v]]
+    progs = []
+    cb = 1 if thorough else 0
+    # the decorator object also decorates one function before and one after the function under test; every facade variant
+    progs.append(([[1, 0, 1, "r", 7, 0], [2, 0, 1, "e", 3, 0]], FACADE, {"reuse": [1, 1], "cancel_budget": cb}))
+    if thorough:
+        progs.append(([[1, 0, 0, "r", 7, 0], [2, 0, 1, "e", 5, 1], [3, 0, 1, "r", 9, 0]], FACADE,
+                      {"reuse": [2, 0], "cancel_budget": 0}))
+    # caller 3 is a task spawned by the body of script 1 (which raises: nothing is stored); it calls while execution 2 of
+    # the same key is in flight - at every point of every interleaving
+    kids = [[1, 0, 0, "e", 4, 0], [2, 0, 1, "r", 8, 0], [3, 0, 0, "r", 9, 0]]
+    progs.append((kids, PLAIN if not thorough else PLAIN[0::2], {"spawned": {"3": 1}, "cancel_budget": cb}))
+    if thorough:
+        progs.append(([[1, 0, 1, "r", 7, 0], [2, 0, 1, "r", 8, 0], [3, 0, 0, "e", 6, 0], [4, 1, 0, "r", 5, 0]],
+                      ["bare", "bare_default", "cache", "early", "soft", "cache_lock"],
+                      {"spawned": {"3": 1, "4": 2}, "cancel_budget": 0}))
+    # same call arguments under another template context / arguments that compare equal but render differently: other
+    # key, other execution; the same (k, context / type): one execution
+    progs.append(([[1, 1, 1, "r", 7, 0], [2, 1, 1, "e", 1, 1], [3, 1, 0, "r", 9, 0]], KEYED, {"cancel_budget": cb}))
+    if thorough:
+        progs.append(([[1, 1, 1, "r", 7, 0], [2, 1, 0, "r", 8, 2], [3, 1, 1, "e", 2, 1], [4, 1, 0, "r", 9, 2]],
+                      ["bare_ctx", "cache_typed", "early_ctx", "cache_lock_typed"], {"cancel_budget": 0}))
     return progs
 
 
@@ -842,7 +906,7 @@ def programs(thorough: bool):
         return [[i, 0 if i < m else 1, n, "r" if i != 2 else "e", 10 + i if i != 2 else 1] for i in range(1, m + 1)]
 
     for m in (2, 3, 4):
-        nmax = {2: 3, 3: 3, 4: 2}[m]
+        nmax = {2: 3, 3: 3, 4: 1}[m]
         for n, (kind, val) in itertools.product(range(nmax + 1), outs):
             cs = same_key(m, n, kind, val, nmax)
             if m < 4:
@@ -863,12 +927,14 @@ def programs(thorough: bool):
     plain_all = [v for v in ALL if not sfimpl.GATED[v]]
     gated_all = [v for v in ALL if sfimpl.GATED[v]]
     for n, mode in itertools.product(range(3), range(sfimpl.CANCEL_MODES)):
-        progs.append(([[1, 0, n, "k", mode, 1], [2, 0, (n + 1) % 3, "r", 8, 2]], plain_all))
+        j9 = n * sfimpl.CANCEL_MODES + mode
+        progs.append(([[1, 0, n, "k", mode, 1], [2, 0, (n + 1) % 3, "r", 8, 2]],
+                      [plain_all[(j9 * 4 + t) % len(plain_all)] for t in range(14)]))
         if n < 2:
             progs.append(([[1, 0, n, "k", mode, 1], [2, 0, n, "e", 2, 2]], gated_all))
     for j, (n, mode) in enumerate(itertools.product(range(2), range(sfimpl.CANCEL_MODES))):
-        # ten of the plain variants per program, in rotation (every variant is in at least three of the six programs)
-        vs10 = [plain_all[(j * 3 + t) % len(plain_all)] for t in range(10)]
+        # seven of the plain variants per program, in rotation
+        vs10 = [plain_all[(j * 5 + t) % len(plain_all)] for t in range(7)]
         progs.append(([[1, 0, n, "k", mode, 0], [2, 0, 1, "r", 8, 1], [3, 0, 0, "k", (mode + 1) % 3, 0]], vs10))
     progs.append(([[1, 0, 1, "k", 1, 0], [2, 0, 0, "r", 8, 1], [3, 1, 1, "k", 2, 0], [4, 0, 1, "e", 1, 2]],
                   ["bare", "cache", "early_omit", "soft_omit"]))
@@ -877,7 +943,9 @@ def programs(thorough: bool):
         for n, (kind, val) in itertools.product(range(3 if m == 2 else 2), outs + [("k", 1)]):
             cs = [[i, 0, (n if i == 1 else (n + i) % 3), (kind if i % 2 else "r"), (val if i % 2 else 10 + i), (i - 1) % 2]
                   for i in range(1, m + 1)]
-            progs.append((cs, plain_two))
+            # nine of the two-parameter / context / typed variants per program, in rotation
+            jt = len(progs)
+            progs.append((cs, [plain_two[(jt * 4 + t) % len(plain_two)] for t in range(9)]))
     progs.append(([[1, 0, 1, "r", 7, 0], [2, 0, 0, "e", 1, 1]], [v for v in TWO if sfimpl.GATED[v]]))
     progs.append(([[1, 0, 1, "r", 7, 0], [2, 0, 1, "e", 1, 1], [3, 1, 0, "r", 9, 0], [4, 0, 0, "k", 0, 2]],
                   ["bare_omit", "cache_omit", "cache_default2", "early_omit_obj"]))
@@ -928,7 +996,8 @@ def run(chk: Check) -> int:
                                                   "execution_ended_cancelled", "join_differs_in_argument_outside_key",
                                                   "join_execution_exactly_ttl_old", "join_execution_older_than_ttl",
                                                   "call_after_stored_value_expired", "recalculation_started",
-                                                  "cold_miss_joins_recalculation", "stale_hit_while_recalculating"))
+                                                  "cold_miss_joins_recalculation", "stale_hit_while_recalculating",
+                                                  "spawned_task_joins_a_later_execution_of_its_parents_key"))
             if nontrivial:
                 distinct.add(json.dumps([case["variant"], case["callers"], r.eff], sort_keys=True, default=list))
             if len(samples) < 4 and nontrivial and "cancel_one_of_several_waiters" in stats and len(r.eff) <= 8 \
@@ -969,7 +1038,8 @@ def run(chk: Check) -> int:
     # 2. exhaustive: all interleavings x one cancellation anywhere, small programs, every variant
     per_prog_limit = chk.budget(3000, 40000)
     variants = sfimpl.VARIANTS
-    progs = timed_programs(chk.thorough) + exception_programs(chk.thorough) + programs(chk.thorough)
+    progs = (sharing_programs(chk.thorough) + timed_programs(chk.thorough) + exception_programs(chk.thorough)
+             + programs(chk.thorough))
     big_rot = 0
     for pi, prog in enumerate(progs):
         callers, vs = prog[0], prog[1]
@@ -986,7 +1056,7 @@ def run(chk: Check) -> int:
             def run_once(prefix, v=v, callers=callers, opts=opts):
                 case = {"variant": v, "callers": callers if v in sfimpl.TWO_PARAM else [c[:5] for c in callers],
                         "schedule": list(prefix)}
-                for f in ("ttl", "early_ttl"):
+                for f in ("ttl", "early_ttl", "reuse", "spawned"):
                     if f in opts:
                         case[f] = opts[f]
                 last["r"] = feed(f"enum:{v}:{pi}", case, cancel_budget=opts.get("cancel_budget", 1),
@@ -1005,7 +1075,7 @@ def run(chk: Check) -> int:
     flush()
 
     # 3. random schedules with bursts and up to two cancellations
-    n = chk.budget(5000, 8000)
+    n = chk.budget(4000, 6000)
     for i in range(n):
         if found >= 3:
             break
@@ -1060,8 +1130,11 @@ def run(chk: Check) -> int:
                    "are not sampled; time passes only in explicit steps between quiescent points (ttl 1-2 s, steps of 1 tick .. "
                    "2 x ttl), bodies do not sleep by themselves; `soft` with a reachable soft_ttl (its re-run of a soft-expired "
                    "value inside the protected execution, falling back to the stored value when the body raises) and the gated "
-                   "backend variants of `early` with a reachable early_ttl are not exercised; `early(upper=True)` is unprotected "
-                   "and out of scope; in cases where `early` recalculates a burst never releases bodies and callers together "
+                   "backend variants of `early` with a reachable early_ttl are not exercised; the functions that share a reused decorator "
+                   "object with the function under test are never called (their registries are separate and not modelled); "
+                   "spawned callers are created at the start of a body, one level deep; a body that calls its own function with "
+                   "its own key (self-join, never returns) and a fully disabled cache (no single-flight by design) are outside "
+                   "the property and not exercised; in cases where `early` recalculates a burst never releases bodies and callers together "
                    "(how an execution's first step interleaves with the done-callbacks of a recalculation that ends in the same "
                    "loop iteration is below the model's granularity; at quiescent points model and code agree); the lock key is a per-process observation here (one process, one backend: cross-process "
                    "recalculations are not single-flight's business); returned values are small ints (no results "
